@@ -68,6 +68,7 @@ def run(ctx):
     n_mut = 0
     request_params = {"args"}
     stores_for_c072 = []
+    keyvar_stores = []
     for ins, objs in muts:
         fn = ins.fn
         paths = set()
@@ -83,6 +84,9 @@ def run(ctx):
             if loaded_elsewhere or not any(_root_fn(o) is edit for o in objs):
                 n_mut -= 1
                 continue
+        if ins.how == "rekey":
+            ctx.holds("C07.1", fn, "in-place re-keying (every key is popped and re-inserted with its own value): contents preserved", ins.node)
+            continue
         deep = [p for p in paths if p not in ((), ("info",))]
         ck = const_str(ins.key) if ins.key is not None else None
         level_keys = TOP_EDITABLE if () in paths else INFO_EDITABLE
@@ -115,6 +119,18 @@ def run(ctx):
                 "removes" if ins.how == "del" else "writes", ck, sorted(level_keys)), ins.node)
             continue
         # dynamic key
+        cks = pt.const_keys(ins.key, fn) if ins.key is not None else None
+        if cks is not None:
+            # a key variable that ranges over a literal tuple of field names
+            bad_keys = [k for k in cks if k not in level_keys]
+            if bad_keys:
+                ctx.violated("C07.1", fn, "edit %s key %r (one of the constants the key variable ranges over), which is not an editable field at this level (editable: %s)" % (
+                    "removes" if ins.how == "del" else "writes", bad_keys[0], sorted(level_keys)), ins.node)
+            else:
+                ctx.holds("C07.1", fn, "%s under a key variable that ranges over the editable fields %s" % ("removal" if ins.how == "del" else "store", cks), ins.node)
+                if ins.how == "store" and fn is edit:
+                    keyvar_stores.append((ins, cks))
+            continue
         if isinstance(ins.key, ast.Name):
             src = request_key_var(ctx, fn, ins.key.id)
             if src is not None:
@@ -123,7 +139,9 @@ def run(ctx):
                 continue
         ctx.violated("C07.1", fn, "edit %s the decoded metafile under a key that is neither a named editable field nor a request key" % (
             "deletes from" if ins.how == "del" else "writes"), ins.node)
-    ctx.floor("statements mutating the decoded metafile", 10, n_mut)
+    ctx.floor("statements mutating the decoded metafile", 5, n_mut)
+    covered = {ck for _, ck in stores_for_c072} | {k for _, cks_ in keyvar_stores for k in cks_}
+    ctx.floor("editable fields with a store in the editor", 6, len(covered & (TOP_EDITABLE | INFO_EDITABLE)))
 
     # whole-object rebinding: top-level `meta = <not a re-keying of meta>` handled by C07.5 below
     # --- C07.2 named guard + value provenance
@@ -173,6 +191,47 @@ def run(ctx):
         else:
             ctx.holds("C07.2", edit, "store to %r is guarded by %r in the request and its value derives only from that entry%s" % (
                 ck, field, "" if used else " (constant)"), ins.node)
+
+    for ins, cks in keyvar_stores:
+        kv = ins.key.id
+        node = C.stmt_node(ctx, edit, ins.node)
+        named = False
+        for b, lab in g.control_deps(node):
+            t = C.test_expr(b)
+            if t is None:
+                continue
+
+            def atom_kv(x, kv=kv):
+                if isinstance(x, ast.Compare) and len(x.ops) == 1 and isinstance(x.ops[0], (ast.In, ast.NotIn)) and isinstance(x.left, ast.Name) and x.left.id == kv \
+                        and isinstance(x.comparators[0], ast.Name) and x.comparators[0].id in request_params:
+                    return isinstance(x.ops[0], ast.In)
+                return None
+            if C.branch_when(b, atom_kv) == lab:
+                named = True
+        if not named:
+            ctx.violated("C07.2", edit, "store under the key variable %r is not control-dependent on the request naming that field (`%s in args`): an edit that does not name it still changes it" % (kv, kv), ins.node)
+            continue
+        # the value must come from the request entry of the same key variable
+        reads = []
+        work = [ins.value]
+        seen_n = set()
+        while work:
+            e = work.pop()
+            for x in ast.walk(e):
+                if isinstance(x, ast.Call) and isinstance(x.func, ast.Attribute) and x.func.attr in ("get", "pop") and isinstance(x.func.value, ast.Name) and x.func.value.id in request_params and x.args:
+                    reads.append(x.args[0])
+                elif isinstance(x, ast.Subscript) and isinstance(x.value, ast.Name) and x.value.id in request_params:
+                    reads.append(x.slice)
+                elif isinstance(x, ast.Name) and x.id not in seen_n and x.id not in request_params:
+                    seen_n.add(x.id)
+                    work += [p_ for w_, p_ in ctx.res.bindings(edit).get(x.id, []) if w_ == "value"]
+        same = bool(reads) and all(isinstance(r, ast.Name) and r.id == kv for r in reads)
+        if same:
+            ctx.holds("C07.2", edit, "store under key variable %r is guarded by `%s in args` and its value derives from args[%s] only" % (kv, kv, kv), ins.node)
+        elif reads:
+            ctx.violated("C07.2", edit, "value stored under the key variable %r derives from request entries %s, not only from args[%s]" % (kv, sorted({norm(r) for r in reads}), kv), ins.node)
+        else:
+            ctx.undecided("C07.2", edit, "where the value stored under the key variable %r comes from is not understood" % kv, ins.node)
 
     # --- C07.3 the request filter
     filt = ctx.prog.functions.get("torrentfile.edit:filter_empty")
@@ -325,6 +384,11 @@ def filter_table(ctx, pt, edit, filt, stores):
                             other.append(norm(a))
                     if term in ("xexit",):
                         other.append("raises")
+                    if any(isinstance(x, ast.Try) for x in own_nodes(filt.node)):
+                        # deletions guarded by try/except KeyError instead of a membership test: the tracer follows normal
+                        # edges only and cannot say which arm runs
+                        ctx.undecided("C07.3", filt, "filter row [%s]: the filter uses exception handling to select the dictionary, which the tracer does not model" % label, "filter row: " + label)
+                        continue
                     ok = got == want and not other
                     ctx.decide("C07.3", filt, ok, "filter row [%s]: effects %s as specified" % (label, sorted(got) or "none"),
                                "filter row [%s]: effects %s%s, specification says %s" % (label, sorted(got) or "none", (" + " + "; ".join(other)) if other else "", sorted(want) or "none"),
